@@ -689,15 +689,19 @@ impl OForest {
         Some((p, self.nodes[&p].kids.iter().position(|k| *k == n).unwrap()))
     }
     /// canonical text: nodes of `old` keep their handle unless they are text; everything else is anonymous
-    pub fn canon(&self, old: &BTreeSet<Handle>) -> Vec<String> {
-        let mut roots: Vec<String> = self.nodes.iter().filter(|(_, n)| n.parent.is_none()).map(|(h, _)| self.canon_node(*h, old)).collect();
+    pub fn canon(&self, old: &BTreeSet<Handle>) -> Vec<String> { self.canon_with(old, false) }
+    /// `text_ids`: text nodes keep their handles too (for the calls whose only merges are "the later text node into the
+    /// earlier one": remove, detach, element_unwrap); otherwise text nodes are anonymous, because an insertion merges
+    /// the inserted node into whichever neighbour is text
+    pub fn canon_with(&self, old: &BTreeSet<Handle>, text_ids: bool) -> Vec<String> {
+        let mut roots: Vec<String> = self.nodes.iter().filter(|(_, n)| n.parent.is_none()).map(|(h, _)| self.canon_node(*h, old, text_ids)).collect();
         roots.sort();
         roots
     }
-    fn canon_node(&self, h: Handle, old: &BTreeSet<Handle>) -> String {
+    fn canon_node(&self, h: Handle, old: &BTreeSet<Handle>, text_ids: bool) -> String {
         let n = &self.nodes[&h];
-        let tag = if old.contains(&h) && !n.val.is_text() { hs(h) } else { "*".to_string() };
-        let kids: Vec<String> = n.kids.iter().map(|k| self.canon_node(*k, old)).collect();
+        let tag = if old.contains(&h) && (text_ids || !n.val.is_text()) { hs(h) } else { "*".to_string() };
+        let kids: Vec<String> = n.kids.iter().map(|k| self.canon_node(*k, old, text_ids)).collect();
         format!("({:?}@{} {})", n.val, tag, kids.join(" "))
     }
     fn copy_subtree(&mut self, n: Handle) -> Handle {
